@@ -256,9 +256,14 @@ def along_case(draw):
     shape = draw(st.sampled_from(SHAPES))
     cnt = gen.prod(shape)
     ts = [draw(st.one_of(fl(-6.0, 6.0), st.sampled_from(T_SPECIAL))) for _ in range(cnt)]
+    # the distance as whole numbers in integer packagings (Python int, NumPy integer scalar,
+    # integer ndarray): "distance t" is a real parameter, 1 and 1.0 are the same distance
+    tpack = draw(st.sampled_from(["float", "float", "float", "pyint", "npint", "ndint"]))
+    if tpack != "float":
+        ts = [float(draw(st.integers(-5, 5))) for _ in range(cnt)]
     return dict(n=n, shape=shape, tv=draw(_tv_fields(n, shape, 2.5)), t=ts,
                 unit_by=draw(st.sampled_from(["normalized", "harness"])),
-                scalar_t=bool(draw(st.booleans())))
+                scalar_t=bool(draw(st.booleans())), tpack=tpack)
 
 
 def body_along(case, ctx):
@@ -285,6 +290,14 @@ def body_along(case, ctx):
         ctx.label("scalar-t")
     else:
         arg = t.copy()
+    tpack = case.get("tpack", "float")
+    if tpack != "float":
+        ctx.label("t-packaging=" + tpack)
+        if np.ndim(arg) == 0:
+            arg = {"pyint": int(arg), "npint": np.int64(int(arg)),
+                   "ndint": np.array(int(arg))}[tpack]
+        else:
+            arg = arg.astype(np.int32 if tpack == "npint" else np.int64)
     if np.any(t < 0):
         ctx.label("t<0")
     if np.any(np.abs(t) > 3):
@@ -512,10 +525,15 @@ def polygon_case(draw):
                                                         math.pi / 6, 2 * math.pi / 3]
                                             if 0.02 * amax <= x <= 0.98 * amax] or
                                            [0.5 * amax])))
-        return dict(n=n, dim=dim, angle=a, radius=None,
+        pack = draw(st.sampled_from(["float", "float", "pyint", "npint", "arr0dint"]))
+        if pack != "float":
+            a = 1.0 if n < 7 or draw(st.booleans()) else 2.0     # 1 < pi/3, 2 < 5 pi / 7
+        return dict(n=n, dim=dim, angle=a, radius=None, pack=pack,
                     default_dim=bool(dim == 2 and draw(st.booleans())))
-    return dict(n=n, dim=dim, angle=None,
-                radius=draw(st.one_of(fl(0.05, 6.0), st.sampled_from([1.0, 0.5, 2.0]))),
+    pack = draw(st.sampled_from(["float", "float", "pyint", "npint", "arr0dint"]))
+    return dict(n=n, dim=dim, angle=None, pack=pack,
+                radius=draw(st.one_of(fl(0.05, 6.0), st.sampled_from([1.0, 0.5, 2.0])))
+                if pack == "float" else float(draw(st.integers(1, 5))),
                 default_dim=bool(dim == 2 and draw(st.booleans())),
                 positional=draw(st.booleans()))
 
@@ -523,18 +541,23 @@ def polygon_case(draw):
 def body_polygon(case, ctx):
     n, dim = case["n"], case["dim"]
     kw = {} if case["default_dim"] else {"dimension": dim}
+    pack = case.get("pack", "float")
+    wrap = {"float": float, "pyint": lambda x: int(x), "npint": lambda x: np.int64(int(x)),
+            "arr0dint": lambda x: np.array(int(x))}[pack]
+    if pack != "float":
+        ctx.label("parameter-packaging=" + pack)
     if case["angle"] is not None:
         a = float(case["angle"])
         r = I.ngon_radius_from_angle(n, a)
-        poly = Polygon.regular_polygon(n, angle=a, **kw)
+        poly = Polygon.regular_polygon(n, angle=wrap(a), **kw)
         ctx.label("by-angle")
     else:
         r = float(case["radius"])
         a = I.ngon_angle_from_radius(n, r)
         if bool(case.get("positional", False)):
-            poly = Polygon.regular_polygon(n, r, **kw)
+            poly = Polygon.regular_polygon(n, wrap(r), **kw)
         else:
-            poly = Polygon.regular_polygon(n, radius=r, **kw)
+            poly = Polygon.regular_polygon(n, radius=wrap(r), **kw)
         ctx.label("by-radius")
     ctx.label("dim=%d" % dim, "n=%d" % n if n <= 6 else "n>6")
     if n >= 5:
